@@ -50,6 +50,7 @@ SortedSeq(S)  == SetToSortSeq(S, <)            \* for sets of Nat
 \* another denomination than the chain's ("f"), the provider's address written in upper-case bech32 (same account)
 ADenom(a)  == IF "denom"  \in DOMAIN a THEN a.denom  ELSE "uakt"
 APDenom(a) == IF "pdenom" \in DOMAIN a THEN a.pdenom ELSE "uakt"
+AUpper(a)  == IF "upper"  \in DOMAIN a THEN a.upper  ELSE FALSE
 
 EmptyState ==
   [height |-> 1, bank |-> <<>>, eacct |-> <<>>, epay |-> <<>>, dep |-> <<>>, grp |-> <<>>,
@@ -340,14 +341,15 @@ CloseLease(S, a) ==
        ELSE CreateOrder(pc.S, a.t, a.d, a.g)
 
 CreateProvider(S, a) ==
-  IF Has(S.prov, a.p) THEN Fail(S) ELSE OK([S EXCEPT !.prov = Put(@, a.p, [attrs |-> a.attrs])])
+  \* up: the provider record keeps the owner's address as the message spelled it (upper-case bech32 is the same account)
+  IF Has(S.prov, a.p) THEN Fail(S) ELSE OK([S EXCEPT !.prov = Put(@, a.p, [attrs |-> a.attrs, up |-> AUpper(a)])])
 
 UpdateProvider(S, a) ==
   IF ~Has(S.prov, a.p) THEN Fail(S)
   ELSE IF \E l \in DOMAIN S.lease : /\ S.lease[l].p = a.p /\ S.lease[l].state = "active"
                                     /\ (~Has(S.ord, S.lease[l].oid) \/ ~Covers(a.attrs, S.grp[S.lease[l].gid].req))
   THEN Fail(S)
-  ELSE OK([S EXCEPT !.prov[a.p].attrs = a.attrs])
+  ELSE OK([S EXCEPT !.prov[a.p] = [attrs |-> a.attrs, up |-> AUpper(a)]])
 
 SignAttributes(S, a) ==
   LET k == AttId(a.a, a.p)
